@@ -17,7 +17,7 @@ CFG = dict(
               "C03_no_false_success_unary", "C03_no_false_success_stream", "C03_no_false_success_run",
               "C03_reset_not_success", "C03_ok_with_body", "C03_unary_foreign", "C03_stream_foreign", "C03_wire_code_nonok",
               "C03_client_observes", "C03_client_model_link", "C03_server_trailer", "C03_sys_no_false_success_partial",
-              "C03_stream_plain_error", "C03_stream_ok_trailer_with_body"],
+              "C03_stream_plain_error", "C03_stream_ok_trailer_with_body", "C03_wire_carries_status", "C03_sys_status_partial"],
     imports=["Model.Status", "Check.C03c"],
     case_type="c03case",
     find_bad_from="find_bad_from",
